@@ -204,3 +204,133 @@ theorem outputs_same_for_all_cache_states (w : World) (top : List Nat) (fuel : N
   rw [cache_transparent w top fuel s hrec h stale, cache_transparent w top fuel s hrec h stale']
 
 end DG.FcDeps
+
+namespace DG.FcDeps
+
+/-! ## the queue is emptied: every package is taken from it at most once -/
+
+/-- packages of a finite universe that have not been seen yet -/
+def unseen (u : List Nat) (seen : List Nat) : Nat := (u.filter fun x => !seen.contains x).length
+
+theorem unseen_append_new (u : List Nat) (hu : u.Nodup) (seen : List Nat) (q : Nat) (hq : q ∈ u)
+    (hn : seen.contains q = false) : unseen u (seen ++ [q]) + 1 = unseen u seen := by
+  unfold unseen
+  induction u with
+  | nil => cases hq
+  | cons a u ih =>
+    have hnd := List.nodup_cons.mp hu
+    simp only [List.filter]
+    by_cases ha : a = q
+    · subst ha
+      have h1 : (seen ++ [a]).contains a = true := by simp
+      have h2 : ∀ x ∈ u, (seen ++ [a]).contains x = seen.contains x := by
+        intro x hx
+        have : x ≠ a := fun h => hnd.1 (h ▸ hx)
+        simp [this]
+      simp only [h1, hn, Bool.not_true, Bool.not_false]
+      rw [List.filter_congr (fun x hx => by rw [h2 x hx])]
+      simp
+    · have hq' : q ∈ u := by
+        rcases List.mem_cons.mp hq with h | h
+        · exact absurd h.symm ha
+        · exact h
+      have h1 : (seen ++ [q]).contains a = seen.contains a := by simp [ha]
+      rw [h1]
+      cases hs : seen.contains a
+      · simp only [Bool.not_false, List.length_cons]
+        have := ih hnd.2 hq'
+        omega
+      · simp only [Bool.not_true]
+        exact ih hnd.2 hq'
+
+/-- queueing the dependencies of a package keeps `queue length + unseen` -/
+theorem fold_measure (u : List Nat) (hu : u.Nodup) (p : Nat) : ∀ (l : List Nat) (s : St), (∀ q ∈ l, q ∈ u) →
+    (l.foldl (enqueue p) s).queue.length + unseen u (l.foldl (enqueue p) s).seen = s.queue.length + unseen u s.seen
+  | [], _, _ => rfl
+  | q :: l, s, hl => by
+    simp only [List.foldl]
+    rw [fold_measure u hu p l _ (fun x hx => hl x (List.mem_cons_of_mem _ hx))]
+    unfold enqueue
+    split
+    · rfl
+    · rename_i hc
+      have hn : s.seen.contains q = false := by
+        cases h : s.seen.contains q
+        · rfl
+        · exact absurd (Or.inr h) hc
+      have := unseen_append_new u hu s.seen q (hl q (by simp)) hn
+      simp only [List.length_append, List.length_singleton]
+      omega
+
+def dedupN : List Nat → List Nat
+  | [] => []
+  | a :: l => if a ∈ dedupN l then dedupN l else a :: dedupN l
+
+theorem mem_dedupN (l : List Nat) (a : Nat) : a ∈ dedupN l ↔ a ∈ l := by
+  induction l with
+  | nil => simp [dedupN]
+  | cons b l ih =>
+    unfold dedupN
+    split
+    · rename_i hb
+      constructor
+      · intro h; exact List.mem_cons_of_mem _ (ih.mp h)
+      · intro h
+        rcases List.mem_cons.mp h with rfl | h
+        · exact hb
+        · exact ih.mpr h
+    · simp only [List.mem_cons, ih]
+
+theorem nodup_dedupN (l : List Nat) : (dedupN l).Nodup := by
+  induction l with
+  | nil => simp [dedupN]
+  | cons b l ih =>
+    unfold dedupN
+    split
+    · exact ih
+    · rename_i hb
+      exact List.nodup_cons.mpr ⟨hb, ih⟩
+
+/-- everything a package of the world records lies in the universe of recorded names -/
+def allRecorded (w : World) : List Nat := dedupN (w.flatMap (·.recorded))
+
+theorem recorded_in_all (w : World) (p q : Nat) (h : q ∈ (w.pkg p).recorded) : q ∈ allRecorded w := by
+  unfold allRecorded
+  rw [mem_dedupN]
+  unfold World.pkg at h
+  by_cases hp : p < w.length
+  · refine List.mem_flatMap.mpr ⟨w[p], List.getElem_mem hp, ?_⟩
+    simpa [List.getD, List.getElem?_eq_getElem hp] using h
+  · simp [List.getD, List.getElem?_eq_none (by omega : w.length ≤ p)] at h
+
+/-- **the queue is emptied**: with `queue length + unseen` steps of fuel the run finishes -/
+theorem run_terminates (w : World) : ∀ (fuel : Nat) (s : St),
+    s.queue.length + unseen (allRecorded w) s.seen ≤ fuel → ∃ s', run w fuel s = some s'
+  | 0, s, h => by
+    have : s.queue = [] := by
+      cases hq : s.queue with
+      | nil => rfl
+      | cons a l => rw [hq] at h; simp at h
+    exact ⟨s, by simp [run, this]⟩
+  | f + 1, s, h => by
+    unfold run
+    cases hq : s.queue with
+    | nil => exact ⟨s, by simp⟩
+    | cons p rest =>
+      simp only [List.isEmpty_cons, Bool.false_eq_true, if_false]
+      apply run_terminates w f
+      unfold step
+      simp only [hq]
+      have hu : (allRecorded w).Nodup := by unfold allRecorded; exact nodup_dedupN _
+      rw [fold_measure (allRecorded w) hu p _ _ (fun q hq' => recorded_in_all w p q hq')]
+      simp only
+      rw [hq] at h
+      simp only [List.length_cons] at h
+      omega
+
+/-- for every world and every set of top-level packages the run finishes -/
+theorem find_terminates (w : World) (top : List Nat) : ∃ fuel s, run w fuel (init top) = some s := by
+  obtain ⟨s, hs⟩ := run_terminates w ((init top).queue.length + unseen (allRecorded w) (init top).seen) (init top) (Nat.le_refl _)
+  exact ⟨_, s, hs⟩
+
+end DG.FcDeps
